@@ -26,7 +26,7 @@ TRACE = {bp_mod.__file__}
 
 
 def sim_kw(seed):
-    return {"trace_files": TRACE, "max_steps": 200000, "max_time": 600.0}
+    return {"trace_files": TRACE, "trace_opcodes": seed % 4 == 0, "max_steps": 200000, "max_time": 600.0}
 
 
 class ILock(shims.Lock):
@@ -62,6 +62,8 @@ def scenario(sim):
     sim.p_switch = (0.0, 0.05, 0.3, 0.9)[sim.choose(4)]
     sim.p_preempt = (0.0, 0.01, 0.1, 0.3)[sim.choose(4)]
     sim.max_preempt = (0, 2, 4, 50)[sim.choose(4)]
+    if sim.trace_opcodes:
+        sim.p_preempt_store = (0.01, 0.05, 0.2)[sim.choose(3)]
     sim.p_stall = (0.0, 0.0, 0.02, 0.1)[sim.choose(4)]
     ntasks = 1 + sim.choose(3)
     nops = 1 + sim.choose(12)
